@@ -131,7 +131,7 @@ def showKind : ReqKind → String
   | .normal => "normal" | .mvn => "mvn" | .dirichlet => "dirichlet"
 
 def showReq (r : Req) : String :=
-  s!"{showStream r.stream}/{showKind r.kind}/{r.size}/" ++ "_".intercalate (r.params.map showExpect)
+  s!"{showStream r.stream}/{showKind r.kind}/{r.size}/" ++ "~".intercalate (r.params.map showExpect)
 
 def showOutExps (o : Out (ExpDict Nat)) : String :=
   match o with
